@@ -821,9 +821,14 @@ func c17Respell(rng *rand.Rand, decoded string) string {
 
 func c17GenItems(rng *rand.Rand, bad bool) []string {
 	n := 1 + rng.IntN(6)
+	repeatOneIn := 5
+	if rng.IntN(25) == 0 { // a long list, around the usual size thresholds; repetitions rarer so that many stay valid
+		n = []int{8, 9, 16, 17, 32, 33, 64, 65, 128, 129, 256, 257}[rng.IntN(12)]
+		repeatOneIn = 3 * n
+	}
 	items := make([]string, 0, n)
 	for i := 0; i < n; i++ {
-		if i > 0 && rng.IntN(5) == 0 {
+		if i > 0 && rng.IntN(repeatOneIn) == 0 {
 			prev := items[rng.IntN(len(items))]
 			switch rng.IntN(4) {
 			case 0: // exact repetition
@@ -1099,7 +1104,7 @@ func init() {
 				c17Rule(r, c.Text, c17AllExamples)
 			}
 		},
-		Rule:               "every concatenation of up to 6 (quick) / 8 (thorough) tokens from {[ ] , \"a\" \"a.b\" \"1\" 1 1.0 -1 true null \"\\u0061\" `// c` `/* c */` x LF blank}, pruned only below prefixes that the reference finds dead (offending byte or completed repetition) and the library rejects, or that stay unjudged; plus generated lists of 1-6 scalars (strings that look like numbers or contain dots, escape-respelled and exact repetitions, value-equal numbers, quoted/bare twins, malformed items) in compact / spaced / one-per-line / random-blank layouts with LF or CRLF, `//` and `/* */` annotations in every gap, byte mutations, cut-off texts and tails. Each text: enum.New(text).Check() vs the reference recogniser; Values() without comment-only entries vs the scalars in order with their kind; 8 fresh Values() computations identical; for valid lists `<ex> // {enum: @e}` + AddRule vs `<ex> // {enum: [list]}` on entries and near-misses (other escapes, 1 / 1.0 / \"1\" / 1e0, true / \"true\"): same error code, same Example(). distinct_nontrivial = distinct rule texts and distinct (list, example) pairs (hashed).",
+		Rule:               "every concatenation of up to 6 (quick) / 8 (thorough) tokens from {[ ] , \"a\" \"a.b\" \"1\" 1 1.0 -1 true null \"\\u0061\" `// c` `/* c */` x LF blank}, pruned only below prefixes that the reference finds dead (offending byte or completed repetition) and the library rejects, or that stay unjudged; plus generated lists of 1-6 (one in 25: 8-257) scalars (strings that look like numbers or contain dots, escape-respelled and exact repetitions, value-equal numbers, quoted/bare twins, malformed items) in compact / spaced / one-per-line / random-blank layouts with LF or CRLF, `//` and `/* */` annotations in every gap, byte mutations, cut-off texts and tails. Each text: enum.New(text).Check() vs the reference recogniser; Values() without comment-only entries vs the scalars in order with their kind; 8 fresh Values() computations identical; for valid lists `<ex> // {enum: @e}` + AddRule vs `<ex> // {enum: [list]}` on entries and near-misses (other escapes, 1 / 1.0 / \"1\" / 1e0, true / \"true\"): same error code, same Example(). distinct_nontrivial = distinct rule texts and distinct (list, example) pairs (hashed).",
 		MinNontrivialQuick: 100000, MinNontrivialThorough: 1000000,
 		Assumptions: []string{
 			"the reference recogniser (about 200 lines, RFC 8259 scalars without exponent; encoding/json decodes strings for the sameness test) is the reading of the property text",
